@@ -1,6 +1,6 @@
 import time, vf
 PID = "C03"
-NSCRIPTS = 34
+NSCRIPTS = 46
 def main(tier, args):
     t0 = time.time()
     exe = vf.build("C03/fdevents", [vf.VERIF + "/checks/C03/harness.cpp"], vf.module_sources("event"), mode="asan",
@@ -8,14 +8,14 @@ def main(tier, args):
     depth, dl, chunk = (4, 80, 7) if tier == "quick" else (7, 1300, 3)
     res = vf.Result(); log = open(vf.BUILD + "/C03/log.txt", "w")
     jobs = []
-    for cfg in (0, 1, 2, 3, 4):
+    for cfg in (0, 1, 2, 3, 4, 5):
         for s in range(0, NSCRIPTS, chunk):
             jobs.append(("cfg%d:s%d" % (cfg, s), [exe, str(cfg), str(depth), str(s), str(s + chunk - 1)]))
     if args.only: jobs = [j for j in jobs if j[0] == args.only]
     vf.run_procs(res, jobs, env={"VERIF_DEADLINE_S": str(dl), "VERIF_WORKERS": "2"}, log=log, jobs=16)
     vf.finish(PID, tier, res, t0,
-              rule="BFS over all histories (depth %d) of enable/disable/feed/drain/pass on 5 configurations of 3 real FdEvents (shared descriptor, read/write/read|write masks, persistent and one-shot, pipes and a socketpair) x 34 callback scripts "
-                   "(disable self; disable/enable/destroy another event on the same or on another descriptor ready in the same pass; destroy + create a new event on a third descriptor; destroy + close), "
+              rule="BFS over all histories (depth %d) of enable/disable/feed/drain/pass on 6 configurations of 3 real FdEvents (shared descriptor, read/write/read|write masks, persistent and one-shot, pipes and a socketpair) x 46 callback scripts "
+                   "(disable self; disable/enable/destroy another event on the same or on another descriptor ready in the same pass; destroy + create a new event on a third descriptor; destroy + close; disable/destroy one event and enable a third one in the same callback), "
                    "each history executed on BOTH back-ends in a forked child under ASan with per-fd records de-pooled; oracle: model-enabled at callback time, poll() snapshot readiness, one-shot disabled in callback, no exception, "
                    "isEnabled agrees, and epoll == select callbacks per pass for order-independent scripts" % depth,
               assumptions=["readiness is the poll(fd,0) snapshot taken immediately before the pass (DESIGN 1.7)", "a closed descriptor's number is not reused within the same pass", "events do not delete themselves inside their own callback (asserted illegal by the code)"])
